@@ -64,7 +64,7 @@ func c07Units(tier string, seed int64) []Unit {
 		func() *LazyProgram { return progTwoSites() },
 		func() *LazyProgram { return rejectionProgs()[0] },
 	}
-	alpha := func(string) []Beh { return []Beh{BPass, BSkip, BFatalA, BPanicStr, BErrorf} }
+	alpha := func(string) []Beh { return []Beh{BPass, BSkip, BFatalA, BPanicStr, BErrorf, BCleanupErrorfSkip, BCleanupErrorf} }
 	for pi, mk := range progs {
 		for _, n := range []int{1, 5, 20} {
 			for _, sd := range seeds {
@@ -107,6 +107,10 @@ func c07Units(tier string, seed int64) []Unit {
 							} else if filesTranscript(logB.Files) != filesTranscript(log.Files) {
 								viol("rerun-differs what=failfile", "same -rapid.seed, different fail file:\n"+trunc(filesTranscript(log.Files), 400)+"\nvs\n"+trunc(filesTranscript(logB.Files), 400))
 							}
+						}
+						if v.Class == "flaky" {
+							viol("flaky-report-seed-cannot-reproduce", "the report says 'flaky test' for a deterministic property: the seed it prints can not reproduce a failure")
+							return
 						}
 						if v.Class != "failed" && v.Class != "panic" {
 							c.Outcome(v.Class, false)
